@@ -11,6 +11,8 @@ is checked per fit by the harness):
 * D. branch selection;
 * E. unit covariance of the generated model equations and of the least-squares problem;
 * F. non-vacuity examples.
+* G./H. (Props/C12/Guess.lean) the whole loop of `ModelIsotherm.guess` with candidates that are refused (`guessIdx`), and an error
+     derived from the optimiser's cost vs. the reported error.
 
 Statements of A are over an arbitrary ordered field, B/C over an arbitrary linear order, E over ℝ about the
 GENERATED functions `PgVerif.Gen.R.*`.
